@@ -214,7 +214,7 @@ def doc_value_correspondence(rep, cases, rng, quick, g):
         m.close()
     idx = [i for i, r in enumerate(mo) if r[0] != 'NOMACHINE']
     _, ri = docs_mod.run_docs(xml=[vxml(docs[i]) for i in idx], xml_tags=[docs[i]['tag'] for i in idx])
-    n = {'OK': 0, 'NOPARSE': 0, 'NOEMIT': 0, 'premise_of_the_theorem_met': 0}
+    n = {'OK': 0, 'NOPARSE': 0, 'NOEMIT': 0, 'premise_of_C09_document_values_met': 0, 'premise_of_the_general_theorem_met': 0}
     bad = 0
     diffs = []
     for i, r in zip(idx, ri):
@@ -224,12 +224,13 @@ def doc_value_correspondence(rep, cases, rng, quick, g):
         else:
             impl = ('OK', vtree_of_text(r['s']))
         n[model[0]] += 1
-        n['premise_of_the_theorem_met'] += 1 if prem else 0
+        n['premise_of_C09_document_values_met'] += 1 if prem == 2 else 0
+        n['premise_of_the_general_theorem_met'] += 1 if prem >= 1 else 0
         key = None
         if impl != tuple(model):
             key = 'model %s, implementation %s' % (str(model)[:300], str(impl)[:300])
         elif prem and impl != ('OK', vtree_of_node(docs[i])):
-            key = 'the document meets the premise of C09_document_values but is not given back unchanged: %s' % str(impl)[:300]
+            key = 'the document meets the premise of C09_document_values%s but is not given back unchanged: %s' % ('' if prem == 2 else '_general', str(impl)[:300])
         if key:
             bad += 1
             diffs.append(docs[i]['tag'] + ': ' + key[:160])
